@@ -19,6 +19,7 @@ tools/rs2lean_fn.py — regenerates Lean definitions from the SOURCE TEXT of sel
   fn:reducer  /repo/yui-homology/src/utils/chain_reducer.rs        -> lean/Yuiv/Gen/ReducerFn.lean  (Props/C08GenR.lean)
   fn:geninfo  /repo/yui-khovanov/src/misc.rs (collect_gen_info)         -> lean/Yuiv/Gen/GenInfoFn.lean  (Props/C03Gen.lean; renderer tools/rs2lean_poly.py)
   fn:link     /repo/yui-link/src/link/{crossing,path,link}.rs      -> lean/Yuiv/Gen/LinkFn.lean     (Props/C18Gen.lean; renderer tools/rs2lean_link.py)
+  fn:braid    /repo/yui-link/src/braid.rs                          -> lean/Yuiv/Gen/BraidFn.lean    (Props/C18GenB.lean; renderer tools/rs2lean_link.py)
   fn:poly     /repo/yui/src/types/lc/lc.rs + poly/{poly,var,var2,h_poly,mdeg,mvar}.rs -> lean/Yuiv/Gen/PolyFn.lean (Props/C16Gen.lean; renderer tools/rs2lean_poly.py)
 
 Additions for fn:misc / fn:snf (see the target entries in TARGETS and Yuiv/Model/RustIter.lean, RustDense.lean):
@@ -89,7 +90,7 @@ Semantics emitted
     on fuel (`Res.err` when it runs out): the constant `loopFuel`, or — target option `fuel_param` — an explicit first
     argument `fuel` of every function that (transitively) contains a loop.
 
-Usage: rs2lean_fn.py [fn:bitseq|fn:ratio|fn:intext|fn:qint|fn:ff|fn:misc|fn:snf|fn:lll|fn:homcalc|fn:triang|fn:spmat|fn:trans|fn:spvec|fn:schur|fn:reducer|fn:poly|fn:geninfo|fn:link]... [--src FILE]... [--out FILE]   (none = all)
+Usage: rs2lean_fn.py [fn:bitseq|fn:ratio|fn:intext|fn:qint|fn:ff|fn:misc|fn:snf|fn:lll|fn:homcalc|fn:triang|fn:spmat|fn:trans|fn:spvec|fn:schur|fn:reducer|fn:poly|fn:geninfo|fn:link|fn:braid]... [--src FILE]... [--out FILE]   (none = all)
   `--src` (once per source file of the target, in its order) and `--out` need exactly one target.
 Exit status 0: every selected generated file is up to date or was rewritten; 1: for some target something in a
 REQUIRED function (or in the item structure) is outside the subset — `rs2lean_fn: cannot translate: <what>` is printed
@@ -490,6 +491,28 @@ TARGETS = {
                  _req("Link", ("new", "from_pd_code", "data", "crossing_num", "signed_crossing_nums", "crossing_signs", "writhe",
                                "components", "crossing_index", "crossing_at", "crossing_at_mut", "resolved_at", "resolved_by",
                                "mirror", "pass_edge", "traverse_edges", "ori_pres_state", "seifert_circles", "is_knot"))),
+    "braid": dict(
+        src=["/repo/yui-link/src/braid.rs"],
+        out="BraidFn.lean", ns="Yuiv.GenBraid", scalar=None, macros=False, fuel_param=True, custom="link",
+        structs=["Generator", "Braid"],
+        exclude=[("Braid", "display"), ("Braid", "load"), ("Braid", "_load"), ("Braid", "reduce")],
+        traits=[("Braid", "mul_assign")],
+        extern_statics={("Link", "from_pd_code"): ("Yuiv.GenLink.Link.from_pd_code", False), ("Vec", "new"): ("[]", False),
+                        ("Iterator", "zip"): ("List.zip", False)},
+        extern_types={"Link": "Yuiv.GenLink.Link"},
+        imports=["Yuiv.Model.Res", "Yuiv.Model.RustLink", "Yuiv.Model.RustMap", "Yuiv.Model.RustBraid", "Yuiv.Gen.LinkFn"],
+        blurb=["The inherent functions of `Generator` and `Braid` (yui-link/src/braid.rs) and `MulAssign<&Braid>::mul_assign`, rendered by",
+               "tools/rs2lean_link.py in `do` notation over `Res` (same reading as Gen/LinkFn.lean).  `struct Generator(i32)` is a",
+               "structure with the single field `v0_` (`self.0` is its first projection, `Self(e)` its constructor); `i32` is the",
+               "unbounded `Int` (`abs` / unary minus never overflow: |generator| < strands), `x.abs() as usize` is `Int.natAbs`,",
+               "`GetSign::sign` is `Pos` iff `x > 0`; `is_zero` is `== 0`; `let m: HashMap<_, _> = it.collect()` inserts the pairs in",
+               "order, later bindings of a key overwriting earlier ones (Yuiv/Model/RustBraid.lean over the association list of",
+               "Yuiv/Model/RustMap.lean), `m.get(&k)` is the lookup; `Link::from_pd_code` is the generated function of Gen/LinkFn.lean.",
+               "`delegate!` (`len`, `is_triv`) is not expanded by this renderer.  Excluded (not attempted): `Braid::{display, load,",
+               "_load, reduce}` (strings / files / empty body), the `From` / `FromIterator` impls.",
+               "`Yuiv/Props/C18GenB.lean` proves them equal to the hand-written model `Yuiv/Model/C18.lean`."],
+        required=_req("Generator", ("new", "index", "sign", "inv")) +
+                 _req("Braid", ("new", "strands", "elements", "inv", "closure", "mul_assign"))),
     "intext": dict(
         src=["/repo/yui/src/misc/int_ext.rs", "/repo/yui/src/abst/euc_ring.rs"], out="IntExtFn.lean",
         ns="Yuiv.GenIntExt", scalar="Z", macros=True, fuel_param=True,
